@@ -64,6 +64,12 @@ func c07Probes() []fo.Decl {
 		mk("ZwGa", "type ZwGa<T> = {ZwI: T; ZwN: int}"),
 		mk("zwGEarly", "let zwGEarly () =\n  {ZwI=\"e\"; ZwN=2}"),
 		mk("zwGMk", "let zwGMk (c:ZwGa<string>) =\n  {ZwI=c.ZwI; ZwN=c.ZwN + 1}"),
+		// a plain record whose NAME looks like fc's encoding of an instantiation of the generic record
+		// above (ZwGa<string>), with another field type; users of both, whose Go types are taken from
+		// the record fields when the file is emitted
+		mk("ZwGa_string", "type ZwGa_string = {ZwI: int}"),
+		mk("zwGVals", "let zwGVals (bs:[]ZwGa<string>) =\n  bs |> slice.Map _.ZwI"),
+		mk("zwLegacyVals", "let zwLegacyVals (ls:[]ZwGa_string) =\n  ls |> slice.Map _.ZwI"),
 		// a global, a later global defined by a match whose arm binder carries the first one's name
 		// (with another type), and a user of the first global: what the binder was must not outlive
 		// its arm, wherever the match-defined global stands
